@@ -3,7 +3,13 @@
    transactions with random kinds / event counts / statuses / encoded lengths; after every Store the
    step carries the specification's answer of EVERY accessor for every (block, index, hash) incl. the
    first out-of-range index and the block beyond the head, computed through the modelled access
-   path (offsets, sections, lazy slices, projections, hash index). *)
+   path (offsets, sections, lazy slices, projections, hash index).
+   With MaxReverts > 0 the chains are not append-only: RevertHead (one to three in a row), then
+   replacement blocks whose transactions are drawn from the reverted ones (other index, other
+   height, dropped) and fresh ones; the view then also lists what must be NOT FOUND now (`gone`:
+   dropped transaction hashes / L1 messages, hashes of replaced blocks). `read` tells the replayer
+   whether reads happen after this write: a quiet RevertHead is followed at once by the next
+   write (reads are allowed, not obliged, between two writes). *)
 EXTENDS MCBlockBlob, Json
 
 VARIABLES hist
@@ -15,11 +21,14 @@ Ids(r) == IF r.k = "found" THEN [i \in 1..Len(r.v) |-> r.v[i].hash] ELSE <<<<r.k
 K(r) == r.k
 
 BlockView(n) ==
-  LET sz == IF n \in Stored THEN Size(n) ELSE 0 IN
-  [n |-> n, size |-> sz,
-   header |-> K(HeaderByNumber(n)), headerByHash |-> K(HeaderByHash(BlockHash(n))),
-   numberByHash |-> LET r == NumberByHash(BlockHash(n)) IN IF r.k = "found" THEN <<"number", r.v>> ELSE <<r.k>>,
-   block |-> K(BlockByNumber(n)), blockByHash |-> K(BlockByHash(BlockHash(n))),
+  LET sz == IF n \in Stored THEN Size(n) ELSE 0
+      bh == IF n \in Stored THEN BHash(n) ELSE BlockHash(ver)             \* beyond the head: a hash never stored
+      TxHashAt(i) == IF n \in Stored /\ i < sz THEN HashOf(n, i) ELSE TxHash(ver, MaxSize + i)  \* or never stored
+  IN
+  [n |-> n, size |-> sz, ver |-> IF n \in Stored THEN chain[n + 1].ver ELSE -1,
+   header |-> K(HeaderByNumber(n)), headerByHash |-> K(HeaderByHash(bh)),
+   numberByHash |-> LET r == NumberByHash(bh) IN IF r.k = "found" THEN <<"number", r.v>> ELSE <<r.k>>,
+   block |-> K(BlockByNumber(n)), blockByHash |-> K(BlockByHash(bh)),
    count |-> LET r == TxCount(n) IN IF r.k = "found" THEN <<"count", r.v>> ELSE <<r.k>>,
    txs |-> Ids(AllTxs(n)), rcs |-> Ids(AllRcs(n)),
    hashes |-> LET r == TxHashes(n) IN IF r.k = "found" THEN r.v ELSE <<<<r.k>>>>,
@@ -31,42 +40,67 @@ BlockView(n) ==
                                     IF r.k = "found" THEN <<r.v[1].hash, r.v[2].hash>> ELSE <<r.k>>],
    status |-> [i \in 1..(sz + 1) |-> LET r == StatusByIndex(n, i - 1) IN
                                       IF r.k = "found" THEN <<"status", r.v.rev>> ELSE <<r.k>>],
-   txByHash |-> [i \in 1..(sz + 1) |-> Id(TxByHash(TxHash(n, i - 1)))],
-   rcByHash |-> [i \in 1..(sz + 1) |-> LET r == ReceiptByHash(TxHash(n, i - 1)) IN
+   txByHash |-> [i \in 1..(sz + 1) |-> Id(TxByHash(TxHashAt(i - 1)))],
+   locByHash |-> [i \in 1..(sz + 1) |-> LET r == LocationByHash(TxHashAt(i - 1)) IN
+                                         IF r.k = "found" THEN <<"at", r.v[1], r.v[2]>> ELSE <<r.k>>],
+   rcByHash |-> [i \in 1..(sz + 1) |-> LET r == ReceiptByHash(TxHashAt(i - 1)) IN
                                         IF r.k = "found" THEN <<r.v.rc.hash, r.v.blockHash, r.v.number>> ELSE <<r.k>>],
-   su |-> K(SUByNumber(n)), suByHash |-> K(SUByHash(BlockHash(n))),
+   su |-> K(SUByNumber(n)), suByHash |-> K(SUByHash(bh)),
    l1 |-> IF n \in Stored
-          THEN [i \in 1..sz |-> IF chain[n + 1].txs[i].kind = "l1handler"
-                                 THEN Id([k |-> L1Lookup(<<"msg", n, i - 1>>).k,
-                                          v |-> [hash |-> IF L1Lookup(<<"msg", n, i - 1>>).k = "found"
-                                                         THEN L1Lookup(<<"msg", n, i - 1>>).v ELSE <<>>]])
+          THEN [i \in 1..sz |-> LET t == chain[n + 1].txs[i] IN
+                                 IF t.kind = "l1handler"
+                                 THEN Id([k |-> L1Lookup(Msg(t)).k,
+                                          v |-> [hash |-> IF L1Lookup(Msg(t)).k = "found" THEN L1Lookup(Msg(t)).v ELSE <<>>]])
                                  ELSE <<"na">>]
           ELSE <<>>]
 
+(* what a reorg dropped: every by-hash accessor for every orphaned transaction and replaced block *)
+GoneView ==
+  [txs |-> {[hash |-> t.hash, tx |-> K(TxByHash(t.hash)), loc |-> K(LocationByHash(t.hash)), rc |-> K(ReceiptByHash(t.hash)),
+             l1 |-> IF t.kind = "l1handler" THEN K(L1Lookup(Msg(t))) ELSE "na"] : t \in Orphans},
+   blocks |-> {[hash |-> h, number |-> K(NumberByHash(h)), header |-> K(HeaderByHash(h)),
+                block |-> K(BlockByHash(h)), su |-> K(SUByHash(h))] : h \in dead.blocks}]
+
 View == [height |-> db.height,
          blocks |-> [n \in 1..Len(chain) |-> BlockView(n - 1)],
-         beyond |-> BlockView(Len(chain))]
+         beyond |-> BlockView(Len(chain)),
+         gone |-> GoneView]
 
 MBTInit == Init /\ hist = <<>>
 
-SimNext ==
-  \E size \in R(0..MaxSize) :
+(* a block: each position takes a random reverted transaction that is not in the chain now (once),
+   else a fresh one - so with orphans around most positions re-include, in a random order *)
+SimStore ==
+  \E size \in R(IF Orphans = {} THEN 0..MaxSize ELSE 1..MaxSize) :
     \E kinds \in R(Seqs(Kinds, size)), evs \in R(Seqs(EvCounts, size)), revs \in R(Seqs(Revs, size)),
-       tl \in R(Seqs(Lens, size)), rl \in R(Seqs(Lens, size)) :
-      Store(size, kinds, evs, revs, tl, rl)
+       tl \in R(Seqs(Lens, size)), rl \in R(Seqs(Lens, size)),
+       pick \in R(Seqs(Orphans \cup {Fresh}, size)) :
+      LET src == [i \in 1..size |-> IF \E j \in 1..(i - 1) : pick[j] = pick[i] THEN Fresh ELSE pick[i]] IN
+      Store(size, kinds, evs, revs, tl, rl, src)
 
-(* a restart between two stores (never two in a row), for about every third step *)
+(* a restart between two writes (never two in a row, also in the middle of a reorg), for about every third step *)
 SimRestart == /\ Len(chain) > 0 /\ act.name # "Restart" /\ RandomElement(1..3) = 1
               /\ \E g \in R(BOOLEAN) : Restart(g)
 
+(* a reorg: RevertHead from any chain length (always from the full chain while reverts are left),
+   again with probability 1/2 (depth 1..MaxReverts), else the next block *)
+SimNext ==
+  IF /\ Len(chain) > 0 /\ Reverts < MaxReverts
+     /\ \/ Len(chain) >= MaxBlocks
+        \/ RandomElement(1..(IF act.name = "Revert" THEN 2 ELSE 4)) = 1
+  THEN Revert
+  ELSE SimStore
+
 Step == (SimRestart \/ SimNext)
-        /\ hist' = Append(hist, [a |-> act', view |-> View'])
+        /\ hist' = Append(hist, [a |-> act', view |-> View',
+                                 read |-> (act'.name # "Revert" \/ RandomElement(1..2) = 1)])
 
 Emit ==
   /\ PrintT(ToJson(hist))
   /\ chain' = <<>>
-  /\ db' = [height |-> -1, blobs |-> <<>>, headers |-> <<>>, byHash |-> {}, txIndex |-> {}, sus |-> <<>>, l1 |-> {}]
+  /\ db' = EmptyDB
+  /\ dead' = [blocks |-> {}, txs |-> {}] /\ ver' = 0 /\ memo' = NoMemo
   /\ act' = [name |-> "Init"] /\ res' = [k |-> "none"] /\ hist' = <<>>
 
-MBTNext == IF Len(chain) >= MaxBlocks THEN Emit ELSE Step
+MBTNext == IF Len(chain) >= MaxBlocks /\ Reverts >= MaxReverts THEN Emit ELSE Step
 =============================================================================
